@@ -179,6 +179,10 @@ class CombinedDataHandler:
             .copy()
         )
         unexpected_units["unit_category"] = "unexpected"
+        # a count that has not arrived yet (null) carries no votes. These units are passed through as counted votes
+        # only, so a NaN would otherwise end up in every aggregate they belong to
+        results_columns = [col for col in unexpected_units.columns if col.startswith("results_")]
+        unexpected_units[results_columns] = unexpected_units[results_columns].fillna(0)
 
         # since we were not expecting them, we have don't have their county or district
         # from preprocessed data. so we have to add that back in.
